@@ -93,7 +93,7 @@ def lexer_crate(run, name, ntok):
     run.uses(*items, imp_tok, imp_lex)
     body = prelude.STR_STUBS + SHIM + rxsmt.mock_statics(pats) + "\n".join(i.text for i in items) + "\n" + imp_tok.text + "\n" + imp_lex.text + \
         HARNESS.replace("NALPHA", str(len(ALPHABET))).replace("ALPHA_CHARS", ", ".join(slicer.rust_char(c) for c in ALPHABET)) \
-        .replace("MAXB", str(maxb)).replace("NTOK", str(ntok)).replace("UNW", str(maxb * ntok + 3))
+        .replace("MAXB", str(maxb)).replace("NTOK", str(ntok)).replace("UNW", str(maxb * ntok + 5))
     body = body.replace("#[derive(Debug, PartialEq, Eq, Clone)]\nenum Token", "#[derive(PartialEq, Eq, Clone)]\nenum Token")
     crate = kani_run.Crate(name, body, native_deps={"regex": '"1.10"', "lazy_static": '"1.4"'})
     return crate, pats
@@ -146,6 +146,21 @@ def build(run):
                 witness=lambda m, a=a, b=b: ("overlap:%s/%s" % (a, b), "%r starts both a %s and a %s token" % (m["s"], a, b), {"s": m["s"]})
                 if rxsmt.captures_real(P[a], m["s"]) and rxsmt.captures_real(P[b], m["s"]) else None,
                 claim="no string starts both a %s and a %s token (so the order of the lexer's tests does not matter)" % (a, b))
+    # (0) every token regex matches at the start of the remaining input only (the lexer advances by the token's length from offset 0)
+    for n in P:
+        core = rxsmt.core_lang(P[n])
+
+        def w_anchor(m, n=n):
+            sw = m["s"]
+            r = rxsmt.rxcheck([("M", [P[n], sw])])[0]
+            if r is None or r == "null" or r.split()[0].split(",")[0] == "0":
+                return None
+            expr_i = "<math><mrow intent=\"%s\"><mi>x</mi><mo>+</mo><mi>y</mi></mrow></math>" % sw.replace("&", "&amp;").replace('"', "&quot;").replace("<", "&lt;")
+            res = mcprobe([("mathml", expr_i), "speech", ("mathml", "<math><mrow><mi>x</mi><mo>+</mo><mi>y</mi></mrow></math>"), "speech"])
+            return ("token-regex-not-anchored:" + n, "%s matches %r at offset %s (not at the start); intent=%r gives %r, without the attribute %r" % (n, sw, r.split()[0], sw, res[1], res[3]),
+                    {"s": sw, "real_match": r, "api": res})
+        run.smt("Z-C19-b.anchored.%s" % n.lower(), D + "(assert (str.in_re s %s))\n(assert (not (str.in_re s (re.++ %s re.all))))\n(assert (str.in_re s ((_ re.loop 1 6) (re.union (re.range \" \" \"~\") (str.to_re \"\\u{b1}\")))))" % (lang[n], core),
+                get=("s",), witness=w_anchor, claim="%s can only match at the start of the string it is given" % n)
     # (3) every regex consumes at least one char (progress) and never matches white space or a terminal inside a name
     for n in P:
         ws = "(re.++ re.all (re.union %s) re.all)" % " ".join("(str.to_re %s)" % smt_str(c) for c in " \t\n\r(,)")
